@@ -860,10 +860,91 @@ func (m *mapOrder) callEffects(info *types.Info, fd *ast.FuncDecl, call *ast.Cal
 			return effs
 		}
 		if _, ok := fn.Type().Underlying().(*types.Signature); ok {
+			// a function-valued parameter of the enclosing declaration: the union of what is passed at the call
+			// sites of that declaration
+			if effs, ok := m.paramFuncEffects(info, fd, fn, depth); ok {
+				for i := range effs {
+					effs[i].Pos = call.Pos()
+					if effs[i].Via == "" {
+						effs[i].Via = "function parameter " + fn.Name()
+					}
+				}
+				return effs
+			}
 			return []mEffect{{Kind: effUnknown, Desc: "call of function value " + fn.Name(), Pos: call.Pos()}}
 		}
 	}
 	return nil
+}
+
+// paramFuncEffects: v is a function-typed parameter of fd; returns the effects of every function value passed
+// for it anywhere in the module (declared functions by their summaries, literals by their bodies).  ok is false
+// if v is not a parameter, fd has no call site, or some argument cannot be resolved.
+func (m *mapOrder) paramFuncEffects(info *types.Info, fd *ast.FuncDecl, v *types.Var, depth int) ([]mEffect, bool) {
+	if depth > 3 || fd.Type.Params == nil {
+		return nil, false
+	}
+	idx, i := -1, 0
+	for _, fl := range fd.Type.Params.List {
+		for _, n := range fl.Names {
+			if info.Defs[n] == v {
+				idx = i
+			}
+			i++
+		}
+	}
+	fobj := info.Defs[fd.Name]
+	if idx < 0 || fobj == nil {
+		return nil, false
+	}
+	var out []mEffect
+	sites, resolved := 0, true
+	for _, cd := range m.p.AllFuncDecls() {
+		cinfo := m.p.InfoFor(cd)
+		ast.Inspect(cd.Body, func(n ast.Node) bool {
+			call, ok := n.(*ast.CallExpr)
+			if !ok || calleeOf(cinfo, call) != fobj || idx >= len(call.Args) {
+				return true
+			}
+			sites++
+			switch a := ast.Unparen(call.Args[idx]).(type) {
+			case *ast.FuncLit:
+				for _, e := range m.effectsOfRegion(cinfo, cd, a.Body, a.Pos(), a.End(), depth+1) {
+					e.Target, e.IndexObj = nil, nil
+					out = append(out, e)
+				}
+			default:
+				var o types.Object
+				switch x := a.(type) {
+				case *ast.Ident:
+					o = cinfo.Uses[x]
+				case *ast.SelectorExpr:
+					o = cinfo.Uses[x.Sel]
+				}
+				if f, ok := o.(*types.Func); ok {
+					if f.Pkg() == nil || !strings.HasPrefix(f.Pkg().Path(), modPath) {
+						return true // library function: no effects on module state
+					}
+					if d := m.p.declOf[f]; d != nil && d.Body != nil {
+						for _, e := range m.summary(f, d) {
+							e.Target, e.IndexObj = nil, nil
+							if e.Via == "" {
+								e.Via = shortQual(qualName(f))
+							}
+							out = append(out, e)
+						}
+						return true
+					}
+				}
+				resolved = false
+			}
+			return true
+		})
+	}
+	if sites == 0 || !resolved {
+		return nil, false
+	}
+	return out, true
 }
 
 func paramIndex(fn *types.Func, o types.Object) int {
